@@ -212,6 +212,11 @@ func futureScenario(r *R) {
 			ctx = root
 		case 2:
 			ctx = NewCtx(root, fmt.Sprintf("w%d", i))
+			if r.Choose(5, "own-err") == 4 {
+				// the caller's own Context implementation, whose Err() is a value of its own
+				ctx.OwnErr()
+				r.Probe("future-waiter-context-with-own-error-value")
+			}
 			cancellable = append(cancellable, ctx)
 		case 3:
 			if r.Choose(3, "dead-by-deadline") == 2 {
